@@ -48,17 +48,23 @@ def constructors():
         ('classical', lambda A, **kw: pyamg.ruge_stuben_solver(sp.csr_array(A), **kw), True, 'transpose'),
         ('classical-pmis', lambda A, **kw: pyamg.ruge_stuben_solver(sp.csr_array(A), CF='PMIS', **kw), True, 'transpose'),
         ('air', lambda A, **kw: pyamg.air_solver(sp.csr_array(A), **kw), True, None),
+        # small entries filtered: A_1 = R * filtered(A_0) * P while level 0 keeps the user's values
+        ('air-filter', lambda A, **kw: pyamg.air_solver(sp.csr_array(A), filter_operator=(True, 0.2), **kw), True, None),
         ('sa', lambda A, **kw: pyamg.smoothed_aggregation_solver(A, **kw), False, 'hermitian'),
         ('sa-symmetric', lambda A, **kw: pyamg.smoothed_aggregation_solver(A, symmetry='symmetric', **kw), False, 'transpose'),
         ('sa-nonsymmetric', lambda A, **kw: pyamg.smoothed_aggregation_solver(A, symmetry='nonsymmetric', **kw), False, None),
         ('sa-energy', lambda A, **kw: pyamg.smoothed_aggregation_solver(A, smooth=('energy', {'maxiter': 2}), **kw), False, 'hermitian'),
+        # candidate count differs from the block size of the input: the "unknowns" compared with max_coarse
+        # are block rows of the level at hand (blocksize 1 or 2 on level 0, 2 below)
+        ('sa-2cands', lambda A, **kw: pyamg.smoothed_aggregation_solver(
+            A, B=np.vstack([np.ones(A.shape[0]), np.arange(A.shape[0]) % 3 - 1.0]).T.copy(), **kw), False, 'hermitian'),
         ('sa-naive', lambda A, **kw: pyamg.smoothed_aggregation_solver(A, aggregate='naive', **kw), False, 'hermitian'),
         ('rootnode', lambda A, **kw: pyamg.rootnode_solver(A, **kw), False, 'hermitian'),
         ('pairwise', lambda A, **kw: pyamg.pairwise_solver(sp.csr_array(A), **kw), False, 'hermitian'),
     ]
 
 
-def structure_oracle(ctx, name, ml, Auser, Acopy, rkind, max_levels, case):
+def structure_oracle(ctx, name, ml, Auser, Acopy, rkind, max_levels, case, filt=None):
     lv = ml.levels
     if len(lv) > max(1, max_levels):
         ctx.fail('levels-exceed-max_levels/' + name, '%d levels with max_levels=%d' % (len(lv), max_levels), case)
@@ -68,14 +74,44 @@ def structure_oracle(ctx, name, ml, Auser, Acopy, rkind, max_levels, case):
     if np.abs(hier.dense_of(Auser) - Acopy).max() > 0:
         ctx.fail('user-matrix-modified/' + name, 'the caller\'s matrix changed during setup', case)
     sz = sizes_of(ml)
+    mc = case.get('max_coarse')
+    if mc is not None and name != 'adaptive':     # (adaptive SA re-derives its own limits for the final build)
+        # coarsening continues exactly while the current level has more than max_coarse unknowns
+        for l in range(len(lv) - 1):
+            if sz[l] <= mc:
+                ctx.fail('coarsened-a-level-within-max_coarse/' + name.split('-')[0],
+                         'level %d has %d <= max_coarse=%d unknowns but was coarsened: sizes %s' % (l, sz[l], mc, sz), case)
+                break
+        if len(lv) < max(1, max_levels) and sz[-1] > mc and name.split('-')[0] in ('sa', 'rootnode', 'pairwise'):
+            # (the aggregation-based constructors have no stall exit: they can only stop for max_levels / max_coarse)
+            ctx.fail('stopped-above-max_coarse/' + name.split('-')[0],
+                     '%d levels < max_levels=%d but the coarsest level has %d > max_coarse=%d unknowns' % (len(lv), max_levels, sz[-1], mc), case)
     for l in range(len(lv) - 1):
         A, P, R, Ac = lv[l].A, lv[l].P, lv[l].R, lv[l + 1].A
         if P.shape != (A.shape[0], Ac.shape[0]) or R.shape != (Ac.shape[0], A.shape[0]) or Ac.shape[0] != Ac.shape[1]:
             ctx.fail('dimensions/' + name, 'level %d: A %r P %r R %r Ac %r' % (l, A.shape, P.shape, R.shape, Ac.shape), case)
             return
         Pd, Rd, Ad, Acd = hier.dense_of(P), hier.dense_of(R), hier.dense_of(A), hier.dense_of(Ac)
+        if filt is not None and l == 0:
+            # the finest level stores the user's matrix; the product is taken with its filtered copy
+            from pyamg.util.utils import filter_matrix_rows
+            Af = sp.csr_array(Acopy.copy())
+            filter_matrix_rows(Af, filt[1], diagonal=True, lump=filt[0])
+            Ad = Af.toarray()
         rap = Rd @ Ad @ Pd
-        if np.linalg.norm(Acd - rap) > 1e-11 * (1 + np.linalg.norm(rap)):
+        alt = None
+        if filt is not None:
+            # a coarse level on which a further extension was attempted is itself stored filtered (in place, by
+            # design): always for intermediate levels, possibly for the last one (extension stopped as "bottom")
+            from pyamg.util.utils import filter_matrix_rows
+            Rf = sp.csr_array(rap.copy())
+            filter_matrix_rows(Rf, filt[1], diagonal=True, lump=filt[0])
+            if l + 1 < len(lv) - 1:
+                rap = Rf.toarray()
+            else:
+                alt = Rf.toarray()
+        if np.linalg.norm(Acd - rap) > 1e-11 * (1 + np.linalg.norm(rap)) and \
+                (alt is None or np.linalg.norm(Acd - alt) > 1e-11 * (1 + np.linalg.norm(alt))):
             ctx.fail('not-galerkin/' + name, 'level %d: |A_c - R A P| = %.3g' % (l + 1, np.linalg.norm(Acd - rap)), case)
         if rkind == 'hermitian' and not np.array_equal(Rd, Pd.conj().T):
             ctx.fail('R-not-PH/' + name, 'level %d' % l, case)
@@ -113,15 +149,17 @@ def run(ctx):
     combos = []
     for c in cons:
         for i in ins:
-            if c[0] in ('air', 'sa-nonsymmetric') and i[2] != 'nonsym' and not ctx.thorough:
+            if c[0] in ('air', 'air-filter', 'sa-nonsymmetric') and i[2] != 'nonsym' and not ctx.thorough:
                 if i[0] not in ('poisson2d-6x5',):
                     continue
-            if i[2] == 'nonsym' and c[0] not in ('air', 'sa-nonsymmetric', 'classical'):
+            if i[2] == 'nonsym' and c[0] not in ('air', 'air-filter', 'sa-nonsymmetric', 'classical'):
                 continue
             combos.append((c, i))
     # corpus: F6 witnesses always run
     forced = [(c, i) for c, i in combos if (c[0] == 'sa-naive' and i[0] == 'diag-12') or
-              (c[0] in ('sa', 'rootnode', 'pairwise', 'classical', 'air') and i[0] == 'poisson2d-6x5')]
+              (c[0] in ('sa', 'rootnode', 'pairwise', 'classical', 'air') and i[0] == 'poisson2d-6x5') or
+              (c[0] == 'air-filter' and i[2] == 'nonsym') or
+              (c[0] in ('sa', 'sa-2cands') and i[0] in ('poisson-6x6-bsr2', 'poisson2d-6x5'))]
     rng = ctx.sub('pick')
     rest = [x for x in combos if x not in forced]
     if not (ctx.thorough or ctx.search):
@@ -139,7 +177,8 @@ def run(ctx):
             continue
         long_sizes = sizes_of(ml_long)
         stalled = len(long_sizes) < 12 and long_sizes[-1] > 0
-        structure_oracle(ctx, cname, ml_long, A, Acopy, rkind, 12, dict(base, max_levels=12, max_coarse=0))
+        structure_oracle(ctx, cname, ml_long, A, Acopy, rkind, 12, dict(base, max_levels=12, max_coarse=0),
+                         filt=(True, 0.2) if cname == 'air-filter' else None)
         grid_mc = sorted({0, 1, 2, 3, 5, 8, long_sizes[-1], max(long_sizes[-1] - 1, 0)} | {s for s in long_sizes} | {s - 1 for s in long_sizes if s > 0})
         for ml_ in range(1, 7):
             for mc in grid_mc:
@@ -160,7 +199,7 @@ def run(ctx):
                 ctx.count('constructor:' + cname)
                 ctx.count('levels=%d' % len(sz))
                 if ml_ <= 3 or rng.random() < 0.3:
-                    structure_oracle(ctx, cname, ml, A, Acopy, rkind, ml_, case)
+                    structure_oracle(ctx, cname, ml, A, Acopy, rkind, ml_, case, filt=(True, 0.2) if cname == 'air-filter' else None)
     # adaptive smoothed aggregation: its setup re-derives strength and aggregation inside several nested
     # constructor calls, so only the structural oracle applies (no level-size prediction)
     from pyamg.aggregation import adaptive_sa_solver
